@@ -148,6 +148,12 @@ def totality(ctx: Ctx, spec, dtype):
         return
     pv = prefs_for(spec, m) if rng.random() < 0.5 or spec.pref == "weights" else None
     A = spec.make(m, dtype, pv)
+    if spec.pref == "pref" and pv is not None and rng.random() < 0.3:
+        # a preference vector that is itself being learned (a leaf requiring grad, or computed from one): still a tensor
+        cls = {"UPGrad": UPGrad, "DualProj": DualProj, "AlignedMTL": AlignedMTL, "ConFIG": ConFIG}[spec.name]
+        base = torch.tensor([float(v) for v in pv], dtype=dtype, requires_grad=True)
+        A = cls(pref_vector=base if rng.random() < 0.5 else base * 1.0)
+        ctx.count("pref_vector_requires_grad", spec.name)
     before = J.clone()
     seed = rng.randrange(10 ** 6)
     torch.manual_seed(seed)
